@@ -1,6 +1,29 @@
 import Driver.HTable
+import Driver.Ledger
+import Driver.TQ
+import Driver.Atoi
+import Driver.Env
+import Driver.Affinity
+import Driver.Rank
+import Driver.XsCtx
+import Driver.X86
+import Driver.MemPool
+import Driver.StackGeom
+import Driver.KTable
 
 def main (args : List String) : IO UInt32 := do
   match args with
   | ["htable"] => Driver.HTable.main; return 0
+  | ["ledger"] => Driver.Ledger.main; return 0
+  | ["tq"] => Driver.TQ.mainTQ; return 0
+  | ["pool", kind] => Driver.TQ.mainPool kind
+  | ["atoi"] => Driver.Atoi.main; return 0
+  | ["env"] => Driver.Env.main; return 0
+  | ["affinity"] => Driver.Affinity.main; return 0
+  | ["rank"] => Driver.Rank.main; return 0
+  | ["xsctx"] => Driver.XsCtx.main; return 0
+  | ["x86"] => Driver.X86.main; return 0
+  | ["mempool"] => Driver.MemPool.main; return 0
+  | ["stackgeom"] => Driver.StackGeom.main; return 0
+  | ["ktable"] => Driver.KTable.main; return 0
   | _ => IO.eprintln "usage: driver <model>  (htable)"; return 2
